@@ -165,7 +165,24 @@ def run(ck):
             ok = len(gate) == 1 and used == gate and attr == gate[0].replace('_', '')
             ck.ob('R12.1s', 'attribute|%s' % attr, ok, L.loc(n),
                   'attribute %s gated by the presence of %s and formatted from %s' % (attr, gate, used))
+        # helper form: `push_opt(&mut tag, "rowstretch", &self.attributes.row_stretch, 1)`
+        for c in H.calls_in(ls['body']):
+            if c.get('k') != 'Call' or not (H.callee(c) or H.callee_decl(c) or '').startswith('uigen::layout::'):
+                continue
+            attr = next((H.lit_value(a) for a in c['args'] if isinstance(H.lit_value(a), str)), None)
+            used = [x.get('f') for a in c['args'] for x in walk(a) if x.get('k') == 'Field' and x.get('adt', '').endswith('LayoutAttributes')]
+            if attr is None or not used:
+                continue
+            n_attr += 1
+            ck.ob('R12.1s', 'attribute|%s' % attr, len(used) == 1 and attr == used[0].replace('_', ''), L.loc(c), 'attribute %s written by a helper from %s' % (attr, used))
         ck.floor('R12.1s', n_attr, 5, 'array attributes in Layout::serialize_to_xml')
+    # an index or setting that cannot be used is diagnosed, not read as "not given" (C04 R4.1 on the helpers the layout code reads through)
+    import core as _core
+    import rules.c04 as c04
+    sh41 = _core.Shared(ck, 'R12.3', lambda r, k: r == 'R4.1' and re.match(r'^(get_i32|get_enum|get_simple_value|LayoutItemAttached::|maybe_parse_layout_index|LayoutFlow::parse)', k) is not None, 'C04:',
+                        ' [a silent None here is taken for "no explicit index / setting": the item is placed by the flow instead of being rejected]')
+    c04.run(sh41)
+    ck.floor('R12.3', sh41.count, 30, 'shared C04 R4.1 obligations on the layout attachment readers')
     # what the gate may test (presence only, never the values) is C04 R4.7, on the same facts
     import core as _core
     import rules.c04 as c04
@@ -467,3 +484,40 @@ def run(ck):
         ck.ob('R12.6', 'lists-only-grow', not bad and bool(shr), L.loc(shr[0]) if shr else L.loc(mi['body']),
               'the list is resized only under `index >= array.len()`: existing entries stay' if not bad and shr else
               'the list can shrink (%s): Vec::resize_with also truncates, so filling a lower empty slot drops the settings recorded at higher indices' % bad, fn=mi['path'])
+
+        # the value written into the slot is the value given, whatever it is (0 is a value: a storage type that cannot hold it, such as
+        # Option<NonZeroI32>, turns an explicit 0 into "unset")
+        valp = next((b for b in H.binding_sites(mi).values() if b['kind'] in ('letcond', 'arm') and b['bind'].get('name', '').startswith('v')), None)
+        val_hids = set()
+        vparam = next((b for b in H.binding_sites(mi).values() if b['kind'] == 'param' and b['index'] == 2), None)
+        for b in H.binding_sites(mi).values():
+            if b['kind'] in ('letcond', 'arm', 'let') and vparam is not None:
+                src = b['node'].get('e') if b['kind'] == 'letcond' else b['node'].get('init') if b['kind'] == 'let' else (H.parents(mi).get(id(b['node'])) or {}).get('e')
+                if src is not None and (H.root_local(src) or {}).get('hid') == vparam['bind']['hid'] and 'i32' == (L.tys[b['bind']['t']] if 't' in b['bind'] else ''):
+                    val_hids.add(b['bind']['hid'])
+        stores = [n for n in walk(mi['body']) if n.get('k') == 'Assign' and n['l'].get('k') == 'Index' and arr is not None and (H.root_local(n['l']['e']) or {}).get('hid') == arr['bind']['hid']]
+        stores += [c for c in H.calls_in(mi['body']) if c.get('m') in ('replace', 'insert', 'get_or_insert') and H.strip_refs(c['recv']).get('k') == 'Index' and arr is not None and (H.root_local(c['recv']) or {}).get('hid') == arr['bind']['hid']]
+        bad = []
+        for st in stores:
+            v = H.strip_refs(st['r']) if st.get('k') == 'Assign' else H.strip_refs(st['args'][0])
+            if st.get('k') == 'Assign':
+                if v.get('k') == 'Call' and (v.get('def') or '').endswith('Option::Some') and len(v['args']) == 1:
+                    v = H.strip_refs(v['args'][0])
+                elif v.get('k') == 'MCall' and v.get('m') == 'into' or (v.get('k') == 'Call' and (v.get('def') or '').endswith('From::from')):
+                    v = H.strip_refs(v['recv'] if v.get('k') == 'MCall' else v['args'][0])
+                else:
+                    bad.append(pp(st, maxlen=60))
+                    continue
+            if not (v.get('k') == 'Path' and v.get('hid') in val_hids):
+                bad.append(pp(st, maxlen=60))
+        elem = L.ty(arr['bind']) if arr is not None else ''
+        ok = bool(stores) and not bad and bool(val_hids)
+        ck.ob('R12.6', 'stores-the-value-given', ok, L.loc(stores[0]) if stores else L.loc(mi['body']),
+              'the slot receives Some(<the i32 given>) unchanged' if ok else
+              'the slot does not simply receive Some(value) (%s): some values (an explicit 0) are recorded as "unset" and serialized as the fill value' % (bad or 'no store found'), fn=mi['path'])
+        lat = L.adts.get('uigen::layout::LayoutAttributes') or {}
+        ftys = {f.get('name'): f.get('ty') for v_ in (lat.get('variants') or []) for f in (v_.get('fields') or [])}
+        ck.floor('R12.6', len(ftys), 5, 'fields of LayoutAttributes')
+        if ftys:
+            odd = {n_: t for n_, t in ftys.items() if 'Option<i32>' not in (t or '')}
+            ck.ob('R12.6', 'slots-can-hold-every-i32', not odd, '', 'LayoutAttributes lists are Vec<Option<i32>>' if not odd else 'list element types %s cannot hold every i32 that an attachment can carry' % odd)
